@@ -363,7 +363,7 @@ FIXED = [
     {"id": "bases", "start": "Expr", "classes": [
         _c("Expr", "", abstract=True), _c("B", "Expr", [("b", ("base", "bool"))]),
         _c("I", "Expr", [("i", ("base", "int")), ("f", ("base", "float"))]),
-        _c("S", "Expr", [("s", ("ann", ("base", "str"), ("VarRange", ["x", "y"])))]),
+        _c("S", "Expr", [("s", ("ann", ("base", "str"), ("VarRange", ["x", "y"]))), ("t", ("base", "str"))]),   # t: a bare str
         _c("Op", "Expr", [("l", E), ("r", E)])]},
     # dependent refinement (tests/representations/dependent_types_test.py)
     {"id": "dependent", "start": "SimplePair", "classes": [
